@@ -30,6 +30,18 @@ def flat_out(o):
 
 
 def run_equiv(c):
+    if not c.get('wide'):
+        return run_equiv_(c)
+    # a float64 layer in a process whose default dtype is float32 (the usual default): nothing may pass through the default dtype
+    keep = torch.get_default_dtype()
+    torch.set_default_dtype(torch.float32)
+    try:
+        return run_equiv_(c)
+    finally:
+        torch.set_default_dtype(keep)
+
+
+def run_equiv_(c):
     out = {'error': None, 'fails': []}
 
     def fail(k, w):
@@ -43,21 +55,27 @@ def run_equiv(c):
         elif any(tuple(sd[k].shape) != tuple(dsd0[k].shape) for k in sd):
             fail('state-dict-shapes', 'shapes differ for %s' % [k for k in sd if tuple(sd[k].shape) != tuple(dsd0[k].shape)][:3])
         d.load_state_dict(sd)
+        if c.get('wide'):
+            t.double()
+            d.double()
+            sd = t.state_dict()
         if c.get('eval'):       # dropout configured but inactive: the layers must agree exactly
             t.eval()
             d.eval()
         # and back into a fresh torch layer
         t2, _ = make_pair(dict(c, seed=c['seed'] + 1))
+        if c.get('wide'):
+            t2.double()
         t2.load_state_dict(d.state_dict())
         if any(not torch.equal(t2.state_dict()[k], sd[k]) for k in sd):
             fail('state-dict-roundtrip', 'torch -> DP -> torch state_dict changed values')
         g = torch.Generator().manual_seed(c['seed'] + 7)
         B, T = c['B'], c['T']
         lens = c['lens']
-        x = torch.randn(B, T, c['D'], generator=g) if c['bf'] else torch.randn(T, B, c['D'], generator=g)
+        x = torch.randn(B, T, c['D'], generator=g, dtype=torch.float64) if c['bf'] else torch.randn(T, B, c['D'], generator=g, dtype=torch.float64)
         nd = 2 if c['bidir'] else 1
-        h0 = torch.randn(c['layers'] * nd, B, c['H'], generator=g)
-        c0 = torch.randn(c['layers'] * nd, B, c['H'], generator=g)
+        h0 = torch.randn(c['layers'] * nd, B, c['H'], generator=g, dtype=torch.float64)
+        c0 = torch.randn(c['layers'] * nd, B, c['H'], generator=g, dtype=torch.float64)
         state = None
         if c['init']:
             state = (h0, c0) if c['kind'] == 'lstm' else h0
@@ -78,7 +96,7 @@ def run_equiv(c):
         if c['input'] != 'padded' and c.get('warm', True) and B > 1:
             # the same layer instances first see another packed batch with the same B and max length but other lengths
             lens0 = list(reversed(lens)) if c['input'] == 'packed_unsorted' else sorted([T] + [max(1, T - 1 - (i % T)) for i in range(B - 1)], reverse=True)
-            x0 = torch.randn(x.shape, generator=g)
+            x0 = torch.randn(x.shape, generator=g, dtype=torch.float64)
             xin0 = pack_padded_sequence(x0, torch.tensor(lens0), batch_first=c['bf'], enforce_sorted=(c['input'] == 'packed_sorted'))
             with torch.no_grad():
                 for m in (t, d):
@@ -105,6 +123,9 @@ def run_equiv(c):
                 if (a is None) != (b is None) or (a is not None and not torch.equal(a, b)):
                     fail('packed-meta', 'PackedSequence.%s differs' % f)
         for i, (a, b) in enumerate(zip(h1, h2)):
+            if a.dtype != b.dtype:
+                fail('final-state', 'final %s state has dtype %s, torch.nn returns %s' % ('hidden' if i == 0 else 'cell', b.dtype, a.dtype))
+                continue
             if a.shape != b.shape or float((a - b).abs().max()) > tol:
                 fail('final-state', 'final %s state differs: %s' % ('hidden' if i == 0 else 'cell', float((a - b).abs().max()) if a.shape == b.shape else (tuple(a.shape), tuple(b.shape))))
         # DP parameter names: torch names map 1:1 through the state_dict names
